@@ -68,6 +68,29 @@ class SymStr:
             i += 1
         return SymStr(self.chars[i:])
 
+    def rstrip(self):
+        c = pysym.ctx()
+        i = len(self.chars)
+        while i > 0 and c.fork(rx.is_space(self.chars[i - 1])):
+            i -= 1
+        return SymStr(self.chars[:i])
+
+    def strip(self):
+        return self.lstrip().rstrip()
+
+    def endswith(self, suffix):
+        sc = _chars_of(suffix)
+        if len(sc) > len(self.chars):
+            return False
+        if not sc:
+            return True
+        return pysym.ctx().fork(z3.And(*[a == b for a, b in zip(self.chars[len(self.chars) - len(sc):], sc)]))
+
+    def isspace(self):
+        if not self.chars:
+            return False
+        return pysym.ctx().fork(z3.And(*[rx.is_space(ch) for ch in self.chars]))
+
     def splitlines(self):
         raise pysym.HarnessGap("splitlines() on a symbolic line")
 
@@ -89,6 +112,29 @@ class SymText:
 
     def __init__(self, lines):
         self.lines = lines
+
+    def rstrip(self):
+        c = pysym.ctx()
+        i = len(self.chars)
+        while i > 0 and c.fork(rx.is_space(self.chars[i - 1])):
+            i -= 1
+        return SymStr(self.chars[:i])
+
+    def strip(self):
+        return self.lstrip().rstrip()
+
+    def endswith(self, suffix):
+        sc = _chars_of(suffix)
+        if len(sc) > len(self.chars):
+            return False
+        if not sc:
+            return True
+        return pysym.ctx().fork(z3.And(*[a == b for a, b in zip(self.chars[len(self.chars) - len(sc):], sc)]))
+
+    def isspace(self):
+        if not self.chars:
+            return False
+        return pysym.ctx().fork(z3.And(*[rx.is_space(ch) for ch in self.chars]))
 
     def splitlines(self):
         return list(self.lines)
